@@ -87,9 +87,20 @@ def jobs(tier):
                         mode["order"] = od
                     out.append({"prop": PROP, "cfg": cfg, "order": "asc", "base": "B1", "scripts": A.stamp(sc), "mode": mode,
                                 "schedule": oname})
+    # accounts that report folder deletions without an object id (the event manager matches them by path): folder
+    # histories incl. re-use of a deleted folder's name
+    hs = [h for h in A.valid_histories(BASES["B4"], OT_ALPHA, 3) if any(op[0] == "delete" for op in h)]
+    for i, h in enumerate(hs):
+        if len(h) == 3 and tier == "quick" and i % 2:
+            continue
+        for sc in ([h, []], [[], h]):
+            out.append({"prop": PROP, "cfg": "ot", "order": "asc", "base": "B4", "scripts": A.stamp(sc),
+                        "mode": {"k": None if len(h) <= 2 else 2, "cap": 2000, "depth": 70, "audit": 0}})
     return out
 
 
+OT_ALPHA = [["delete", "m"], ["mkdir", "m"], ["rename", "m", "n"], ["mkdir", "e"], ["delete", "e"], ["rename", "d", "x"],
+            ["delete", "d/b"], ["delete", "d"], ["rename", "n", "m"], ["create", "m/f"]]
 B0_ALPHA = [["create", "a"], ["mkdir", "d"], ["create", "d/b"], ["write", "a"], ["delete", "a"], ["rename", "a", "b"],
             ["rename", "d", "e"], ["mkdir", "d/e"], ["delete", "d"]]
 B2_ALPHA = [["rename", "e", "m"], ["rename", "e/f", "f"], ["write", "e/f/g"], ["delete", "e/f/g"], ["delete", "e/f"],
